@@ -275,6 +275,19 @@ def directed_scenarios():
                [["switch-kind", "m1", "memento"], c01.event_actions(y1, y2), y2, {"c1": "m2"}, ["c1"]],
                [["switch-kind", "m1", "memento"], [], y2, {"c1": "m2"}, None]]
         out.append(dict(note="clone made while a name is bound to a foreign function, asked first after the name is re-bound", program=y0, events=evs))
+    for how in ("ignore", "partial", "force_local"):
+        # ... and the name is re-bound without any registration (an alias of the foreign function bound to another memento function)
+        z0 = dict(defs={"m1": f("memento", []), "m2": f("memento", [], const=2), "m3": f("memento", [["m1", "alias"]]), "m4": f("memento", [["m3", "bare"]])},
+                  order=["m1", "m2", "m3", "m4"])
+        for d in z0["defs"].values():
+            d["nest"] = None
+        z1 = copy.deepcopy(z0); z1["defs"]["m1"] = foreign_def(z0["defs"]["m1"])
+        z2 = copy.deepcopy(z1); z2["alias_map"] = {"m1": "m2"}
+        evs = [[["switch-kind", "m1", "foreign"], c01.event_actions(z0, z1), z1, {}],
+               [["create-" + how, "c1", "m3"], [["clone", "c1", "m3", how]], z1, {"c1": "m3"}, ["m3", "c1"]],
+               [["rebind-alias", "m1", "m2"], [["exec", "mod", "a_m1 = m2\n"]], z2, {"c1": "m3"}, ["c1"]],
+               [["rebind-alias", "m1", "m2"], [], z2, {"c1": "m3"}, None]]
+        out.append(dict(note="clone made while an alias is bound to a foreign function; the alias re-bound to a memento function", program=z0, events=evs))
     # a name that was undefined is defined with the value None (module variable and module attribute of the helper module)
     n0 = dict(defs={"m1": f("memento", [["U1", "bare"]]), "m2": f("memento", [["m1", "bare"]])}, order=["m1", "m2"], late=["U1"])
     n1 = copy.deepcopy(n0); n1["defs"]["U1"] = dict(kind="var", where="mod", value=None); n1["order"] = ["U1", "m1", "m2"]
